@@ -335,6 +335,7 @@ fn main() {
     let budget = if opts.thorough() { 60_000 } else { 3_000 };
     let stats = Arc::new(Stats { executions: Default::default(), decisions: Default::default(), distinct: Default::default() });
     let mut distinct_total = 0u64;
+    let mut pbt = PbTotals::default();
     for (i, s) in scns.iter().enumerate() {
         if i as u64 % opts.nshards != opts.shard {
             continue;
@@ -346,7 +347,16 @@ fn main() {
         let sc = *s;
         let before_exec = stats.executions.load(Ordering::Relaxed);
         stats.distinct.lock().unwrap().clear();
-        let fails = explore(move || scenario(sc), budget, opts.seed + i as u64 * 31, &stats, 2);
+        // --part pb|sampled restricts the run to one half (used to measure what each half catches)
+        let part = opts.flag("part").unwrap_or("both").to_string();
+        let sc1 = sc.clone();
+        let mut fails = if part != "pb" { explore(move || scenario(sc), budget, opts.seed + i as u64 * 31, &stats, 2) } else { vec![] };
+        // systematic part: every schedule with at most `bound` preemptions, lower bounds first (sched::enumerate_pb)
+        let (bound, cap) = if opts.thorough() { (2usize, 400_000u64) } else { (2usize, 6_000u64) };
+        let sc = sc1;
+        let pb = enumerate_pb(move || scenario(sc), bound, if part == "sampled" { 1 } else { cap }, 0, 1, &stats, 2);
+        pbt.add(&s.name(), &pb);
+        fails.extend(pb.failures.clone());
         let execs = stats.executions.load(Ordering::Relaxed) - before_exec;
         let d = stats.distinct.lock().unwrap().len() as u64;
         distinct_total += d;
@@ -371,5 +381,6 @@ fn main() {
     rep.extra.insert("executions".into(), json!(stats.executions.load(Ordering::Relaxed)));
     rep.extra.insert("scheduling_decisions".into(), json!(stats.decisions.load(Ordering::Relaxed)));
     rep.extra.insert("distinct_schedules".into(), json!(distinct_total));
+    pbt.into_extra(&mut rep.extra);
     rep.finish()
 }
